@@ -233,3 +233,63 @@ def run(rep, facts, tier):
                             'the single place where Eval differs from Compile (run on close)' if ok else
                             '%s behaves differently in Eval and Compile mode: eval is no longer compile + run' % short(fn), fn, t.get('at'))
     rep.floor('C15.R2 Eval/Compile mode comparisons', n_cmp, 1)
+
+    # a program that fails while `eval` runs it ends up where `compile` + `run` would leave it: built, context left, halted.
+    # In context_close the Eval-mode run() must, on its Err side, pop the saved context and restore State.ctx before the
+    # error is returned - otherwise the caller's roll-back treats the failed *run* as a rejected *build* (data stack cut
+    # back, definitions dropped), which compile + run never does.
+    from ..pathq import exists_path_avoiding
+    fx.need('state::State::context_close')
+    cc = V('state::State::context_close')
+    tracked_ = awrite.state_tracked(fx)
+    wcc = awrite.field_writes(fx, cc, tracked_)
+    restore = {w['bb'] for w in wcc if w['field'] == ('ctx',)}
+    pops = {w['bb'] for w in wcc if w['field'][0] == 'nested' and w['how'].startswith('call:shrink')}
+    rets = set(cc.return_blocks())
+    n_run = 0
+    for bb, t in cc.calls():
+        if callee_of(t) != 'state::State::run':
+            continue
+        mode = None
+        for (b2, e, side) in edge_guards(cc, bb):
+            if isinstance(e, tuple) and e[0] == 'call' and e[1] == '<state::ContextMode as core::cmp::PartialEq>::eq' and side:
+                for x in expr_walk(e):
+                    if isinstance(x, tuple) and x[0] == 'const' and x[1].get('pm'):
+                        for m in x[1]['pm']:
+                            if m.startswith('state::ContextMode::'):
+                                mode = m.split('::')[-1]
+        if mode != 'Eval':
+            continue
+        n_run += 1
+        # blocks from which only the Err outcome of this run() continues: the Err target of the test of its result
+        dest = t['dest']['l']
+        err_targets = []
+        for b2 in cc.reachable_blocks():
+            tt = cc.blocks[b2]['term']
+            if tt['k'] != 'switch':
+                continue
+            e = cc.expr_of_operand(tt['discr'])
+            if not (isinstance(e, tuple) and e[0] == 'discr'):
+                continue
+            if not any(isinstance(x, tuple) and x[0] == 'call' and x[1] == 'state::State::run' and x[3] == cc.obb(bb) for x in expr_walk(e[1])):
+                continue
+            listed = dict((v, tg) for v, tg in tt['targets'])
+            if e[2] == 'core::result::Result':
+                err_targets.append(listed.get(1, tt['otherwise'] if 1 not in listed else None))
+            elif e[2] == 'core::ops::control_flow::ControlFlow':
+                err_targets.append(listed.get(1, tt['otherwise'] if 1 not in listed else None))
+        err_targets = [x for x in err_targets if x is not None]
+        ok = bool(err_targets)
+        why = 'the result of the Eval-mode run() is not tested in context_close'
+        for et in err_targets:
+            p1 = exists_path_avoiding(cc, et, lambda b: b in rets, restore) if et not in restore else None
+            p2 = exists_path_avoiding(cc, et, lambda b: b in rets, pops) if et not in pops else None
+            if p1 is not None or p2 is not None:
+                ok = False
+                why = ('a run-time failure under eval returns from context_close without leaving the context (bb%s): the roll-back of the build '
+                       'entry then discards the data stack and the definitions of a program that compile + run would have kept'
+                       % '->bb'.join(map(str, (p1 or p2)[:8])))
+            elif ok:
+                why = 'on Err the saved context is popped and restored before the error is returned (built, failed at run: halted, not rolled back)'
+        rep.add('C15.R2', 'C15.R2:eval:failed-run-leaves-context-like-compile+run', ok, why, cc.name, t.get('at'))
+    rep.floor('C15.R2 Eval-mode run() in context_close', n_run, 1)
